@@ -71,8 +71,31 @@ def macroExpected (body : String) (name abbr : String) : Option Bool :=
     else none
   | _ => none
 
+/-- the text between the first and the last double quote of a query -/
+def literalBody (q : String) : List Char :=
+  ((q.toList.dropWhile (· != '"')).drop 1).reverse.dropWhile (· != '"') |>.drop 1 |>.reverse
+
+/-- outside the modelled lexer: the model is not asked -/
 def unsafeLiteral (q : String) : Bool :=
   (q.toList.filter (· == '"')).length > 2 || q.toList.contains '\\' || q.toList.any (fun c => c.toNat < 32)
+
+/-- a backslash that is not the start of one of the lexer's character escapes -/
+def escBreaks : List Char → Bool
+  | '\\' :: c :: rest => if "abfnrtv'\\".toList.contains c then escBreaks rest else true
+  | ['\\'] => true
+  | _ :: rest => escBreaks rest
+  | [] => false
+
+/-- the recorded finding `query-literal-unescaped`: a value that cannot stand between plain double
+    quotes - it holds a quote, a line feed, a NUL, or a backslash that does not start one of the
+    lexer's character escapes (a trailing one escapes the closing quote).  Every other value (tabs, other control characters, backslashes
+    inside, non-ASCII) must give a query that is true of its entry. -/
+def breaksLiteral (q : String) : Bool :=
+  -- a conjunction of clauses (kafka summaries): clause by clause
+  let clauses := (q.splitOn "\" and ").map fun c => if c.endsWith "\"" then c else c ++ "\""
+  clauses.any fun c =>
+    let body := literalBody c
+    body.contains '"' || body.contains '\n' || body.contains (Char.ofNat 0) || escBreaks body
 
 def judgeQueries (_proto payload impl : String) : Verdict :=
   match itemsOf impl with
@@ -96,7 +119,7 @@ def judgeQueries (_proto payload impl : String) : Verdict :=
             let agree := match modelT with
               | some b => truth == toString b
               | none => true
-            (implOk, agree, unsafeLiteral qt)
+            (implOk, agree, breaksLiteral qt)
           | _ => (false, true, false)
         let mres := ms.map fun m => match m with
           | .list [.atom name, .atom truth] =>
